@@ -38,7 +38,7 @@ CHECKS.update({
     'C01': dict(engine='simnet', level='exploration', design='3/C01',
                 technique='property-based testing: Hypothesis-generated concurrent interaction programs on a simulated network, reference model = the program (sequence equality of handed and observed payloads)',
                 text='Generated mixes of 1-8 concurrent interactions of all five models, both directions, both framings, fragment sizes, read chunkings, publisher pacing and delivery schedules; each payload encodes its interaction and index so loss, duplication, corruption, merge and misdelivery are all visible. Search, not proof.',
-                note='Trusted: virtual loop, tap, recording application, correlation of handler calls through the stream id of the last yielded frame. Websocket/QUIC/HTTP3 glue is not exercised.'),
+                note='Trusted: virtual loop, tap, recording application, correlation of handler calls through the stream id of the last yielded frame. The websocket transports run with an in-memory stand-in for the websocket object (one shard); QUIC / HTTP3 glue is not exercised.'),
     'C08': dict(engine='simnet', level='exploration', design='3/C08',
                 technique='property-based testing: protocol-role monitor (per-stream automaton) over the send/receive log of every run of three program generators incl. a race generator',
                 text='A per-endpoint, per-stream legality automaton derived from the statement is applied to generated runs rich in cancel/response races, handler and publisher failures, lease and fragmentation. Open known findings: D11 (frames overtake a lease-blocked request) and D12 (channel half-close), both pinned by the suite or not small to repair.',
